@@ -299,6 +299,7 @@ func nodeAny(n gen.Node) any {
 func senParse(b []byte, mode int) *outcome {
 	return run("sen.Parser.Parse", nil, func(o *outcome) {
 		p := &sen.Parser{}
+		p.AddMongoFuncs()
 		args, get := collectAny(mode, len(b))
 		v, err := p.Parse(append([]byte(nil), b...), args...)
 		o.Err = err
@@ -314,6 +315,7 @@ func senParseReader(b []byte, s *sim.Schedule, mode int) *outcome {
 	rd := sim.NewSimReader(b, s)
 	return run("sen.Parser.ParseReader", rd, func(o *outcome) {
 		p := &sen.Parser{}
+		p.AddMongoFuncs()
 		args, get := collectAny(mode, len(b))
 		v, err := p.ParseReader(rd, args...)
 		o.Err = err
